@@ -9,6 +9,17 @@ use std::os::unix::ffi::OsStrExt;
 use std::path::{Path, PathBuf};
 use std::process::{Command, Stdio};
 
+/// One cargo target directory per tree under test: `$VERIF_BUILD/repo-target` for /repo, and for a scratch
+/// worktree (VERIF_REPO) a directory tagged like the orchestrator's other `-alt<tag>` directories (first 8
+/// hex digits of sha256 of the path; `tools/seedrun.sh` removes `*-alt<tag>` afterwards).  Runs against
+/// different trees must not rebuild a binary or a library another run is executing.
+pub fn repo_target(build: &str, repo: &str) -> String {
+    if repo == "/repo" { return format!("{build}/repo-target"); }
+    use sha2::Digest;
+    let h = sha2::Sha256::digest(repo.as_bytes());
+    format!("{build}/repo-target-alt{}", h.iter().take(4).map(|b| format!("{b:02x}")).collect::<String>())
+}
+
 /// Build `mlar` from /repo's working tree into `$VERIF_BUILD/repo-target` (a change to /repo is picked
 /// up by cargo's own freshness check) and return the path of the binary.
 pub fn build_mlar() -> Result<PathBuf, String> {
@@ -17,7 +28,7 @@ pub fn build_mlar() -> Result<PathBuf, String> {
         let root = std::env::var("VERIF_ROOT").unwrap_or_else(|_| "/verif".to_string());
         format!("{root}/.build")
     });
-    let target = format!("{build}/repo-target");
+    let target = repo_target(&build, &repo);
     std::fs::create_dir_all(&target).map_err(|e| format!("cannot create {target}: {e}"))?;
     // serialise concurrent builds into the same target directory (cargo has its own lock as well)
     let out = Command::new("cargo")
